@@ -142,6 +142,65 @@ def random_conf(rnd, style=None, size=None, allow_severity=True):
     return conf
 
 
+def rules_with_option(opt):
+    return sorted(r for e in domains().get(opt, []) for r in e["rules"])
+
+
+def themed_conf(rnd):
+    """a coordinated, project-style configuration: one convention applied to every rule that has the option"""
+    theme = rnd.choice(["affix", "affix", "optional_items", "case", "spaces", "alignment", "enable_disabled", "structure_options"])
+    conf = {"rule": {}}
+    R = conf["rule"]
+    if theme == "affix":
+        suf = rnd.sample(["_i", "_o", "_io", "_t", "_c", "_g", "_s", "_n", "_e"], k=rnd.randint(1, 5))
+        pre = rnd.sample(["i_", "o_", "io_", "t_", "c_", "g_", "s_", "f_"], k=rnd.randint(0, 4))
+        case = rnd.choice(["upper", "lower", "upper", "lower", "upper_or_lower"])
+        if rnd.random() < 0.5:
+            suf = [x.upper() if rnd.random() < 0.3 else x for x in suf]
+        for rid in rules_with_option("suffix_exceptions"):
+            e = R.setdefault(rid, {})
+            e["suffix_exceptions"] = list(suf)
+            if pre:
+                e["prefix_exceptions"] = list(pre)
+            e["case"] = case
+    elif theme == "optional_items":
+        for e in domains().get("action", []):
+            if "remove" in e["values"]:
+                for rid in e["rules"]:
+                    R.setdefault(rid, {})["action"] = rnd.choice(["remove", "remove", "add"])
+                    R[rid]["disable"] = False
+        for e in domains().get("parenthesis", []):
+            for rid in e["rules"]:
+                R.setdefault(rid, {})["parenthesis"] = rnd.choice(e["values"])
+    elif theme == "case":
+        R["group"] = {rnd.choice(["case", "case::keyword"]): {"case": rnd.choice(["upper", "upper_or_lower"])}}
+        if rnd.random() < 0.5:
+            R["group"]["case::name"] = {"case": R["group"][list(R["group"])[0]]["case"]} if "case" in R["group"] else {"case": rnd.choice(["upper", "lower"])}
+    elif theme == "spaces":
+        v = rnd.choice([1, 2, ">=1", "1+", 3])
+        for rid in rnd.sample(rules_with_option("number_of_spaces"), k=rnd.randint(20, 120)):
+            R.setdefault(rid, {})["number_of_spaces"] = v
+    elif theme == "alignment":
+        for opt in ("compact_alignment", "blank_line_ends_group", "comment_line_ends_group", "if_control_statements_ends_group", "case_control_statements_ends_group", "loop_control_statements_ends_group", "separate_generic_port_alignment"):
+            v = rnd.choice(["yes", "no"])
+            for rid in rules_with_option(opt):
+                R.setdefault(rid, {})[opt] = v
+    elif theme == "enable_disabled":
+        for rid in _default_disabled():
+            if rnd.random() < 0.8:
+                R.setdefault(rid, {})["disable"] = False
+    elif theme == "structure_options":
+        br = by_rule()
+        for rid in sorted(br):
+            for opt, ent in br[rid].items():
+                if opt.endswith("_new_line") or opt.startswith("new_line") or opt in ("first_open_paren", "last_close_paren", "interface_element", "interface_list_semicolon", "assign_on_single_line", "ignore_single_line", "array_constraint") or opt.startswith("record_constraint"):
+                    if rnd.random() < 0.6:
+                        R.setdefault(rid, {})[opt] = rnd.choice(ent["values"])
+    if rnd.random() < 0.3:
+        R.setdefault("global", {})["indent_size"] = rnd.choice([2, 3, 4])
+    return conf if R else None
+
+
 def random_stack(rnd, style=None):
     """0-2 configuration files (for the -oc round trip)"""
     k = rnd.choice([0, 1, 1, 1, 2])
@@ -160,5 +219,5 @@ def random_stack(rnd, style=None):
 
 def conf_strategy(p_default=0.45):
     """Hypothesis strategy: None (default configuration) or a generated configuration dictionary"""
-    gen = st.integers(0, 2**31 - 1).map(lambda s: random_conf(random.Random(s)))
+    gen = st.integers(0, 2**31 - 1).map(lambda s: (themed_conf(random.Random(s)) if s % 3 == 0 else random_conf(random.Random(s))))
     return st.one_of(st.none(), gen) if p_default >= 0.45 else st.one_of(gen, st.none())
